@@ -11,6 +11,7 @@ import (
 	"crypto/x509"
 	"encoding/hex"
 	"fmt"
+	"github.com/fido-device-onboard/go-fdo/cose"
 	"io"
 	"strconv"
 	"strings"
@@ -371,8 +372,8 @@ func RunC04(c *core.Ctx) {
 					if ws.Bits == cf.spec.Bits && (ws.Bits != 0 || ws.Type == cf.spec.Type) {
 						continue
 					}
-					if c.Quick() && ws.Bits > 2048 {
-						continue
+					if c.Quick() && ws.Bits > 2048 && !(cf.spec.Bits == 2048 && ws.Name == env.RSAPKCS.Name) {
+						continue // (one larger RSA size is kept in the quick tier: a 2048-bit voucher must not move on to a 3072-bit owner)
 					}
 					var e3 error
 					switch pub := env.Key(ws, "o2").Public().(type) {
@@ -423,6 +424,29 @@ func RunC04(c *core.Ctx) {
 				vs[n] = next
 				cur = next
 			}
+			// a chain in which an owner comes back: mfg -> owner -> o2 -> owner -> o3. Cutting the two middle entries leaves
+			// [e0, e3] with e3 correctly signed by the key e0 names: only its PreviousHash gives the cut away.
+			var loop *fdo.Voucher
+			func() {
+				ext := func(v *fdo.Voucher, by crypto.Signer, to crypto.Signer) *fdo.Voucher {
+					if v == nil {
+						return nil
+					}
+					var nv *fdo.Voucher
+					var err error
+					switch pub := to.Public().(type) {
+					case *ecdsa.PublicKey:
+						nv, err = fdo.ExtendVoucher(v, by, pub, nil)
+					case *rsa.PublicKey:
+						nv, err = fdo.ExtendVoucher(v, by, pub, nil)
+					}
+					if err != nil {
+						return nil
+					}
+					return nv
+				}
+				loop = ext(ext(ext(base, signers[0], signers[1]), signers[1], signers[0]), signers[0], signers[2])
+			}()
 			kh := dev.Cred.PublicKeyHash
 			secret := dev.Secret
 			for n, v := range vs {
@@ -531,6 +555,7 @@ func RunC04(c *core.Ctx) {
 						restruct(func(v *fdo.Voucher) { v.Entries = append(v.Entries, other.Entries[0]) }, "entry-appended-from-other-voucher")
 					}
 				}
+				restruct(func(v *fdo.Voucher) { v.CertChain = nil }, "certchain-removed")
 				if other != nil {
 					restruct(func(v *fdo.Voucher) { v.Header = other.Header }, "header-from-other-voucher")
 					restruct(func(v *fdo.Voucher) { v.Hmac = other.Hmac }, "hmac-from-other-voucher")
@@ -543,6 +568,28 @@ func RunC04(c *core.Ctx) {
 				}
 				for i := 0; i < nm; i++ {
 					try(mutate(c.Rng, vb), secret, int64(kh.Algorithm), kh.Value, "cbor-mutation")
+				}
+			}
+			if loop != nil && len(loop.Entries) == 4 {
+				cut := *loop
+				cut.Entries = []cose.Sign1Tag[fdo.VoucherEntryPayload, []byte]{loop.Entries[0], loop.Entries[3]}
+				for _, lv := range []struct {
+					v    *fdo.Voucher
+					meta string
+				}{{loop, "returning-owner-chain"}, {&cut, "returning-owner-chain-middle-cut"}} {
+					b, err := cbor.Marshal(lv.v)
+					if err != nil {
+						continue
+					}
+					p := core.Params{"voucher": hex.EncodeToString(b), "secret": hex.EncodeToString(secret), "kalg": fmt.Sprint(int64(kh.Algorithm)), "kval": hex.EncodeToString(kh.Value)}
+					o := c.Do("voucher.verify", p, lv.meta)
+					allok := strings.Contains(o.Impl, "hdr=ok mfg=ok cch=ok entries=ok")
+					if lv.v == loop && !allok {
+						c.Fail("honest-rejected:"+cf.spec.Name, "a chain in which an owner returns failed a step: "+o.Impl[:min(60, len(o.Impl))], "voucher.verify", p, o)
+					}
+					if lv.v == &cut && allok {
+						c.Fail("tamper-accepted:middle-cut:"+cf.spec.Name, "two entries cut out of the middle of the chain and every step still passes", "voucher.verify", p, o)
+					}
 				}
 			}
 		}()
